@@ -31,7 +31,9 @@ ADV_ATOMS: t.List[t.Any] = [
     '9' * 5000, 10 ** 5000, -10 ** 5000, '2023-13-45', '25:61:61', '2023-09-05T25:00', 10 ** 400, -10 ** 400, values.INF, values.NAN,
     b'\xff\xfe', [[]], [{}], {'': {}}, complex(values.INF, 0), '', ' ', '1e999', '-', '0x10', '1_0',
 ]
-ADV_KEYS: t.List[t.Any] = [1, 10 ** 5000, None, (1, 2), 1.5, True, '', '\ud800', b'k', ('a', ('b',)), -10 ** 5000]
+ADV_KEYS: t.List[t.Any] = [1, 10 ** 5000, None, (1, 2), 1.5, True, '', '\ud800', b'k', ('a', ('b',)), -10 ** 5000,
+                           # strings no naming style can split into words (a helper that renames an unknown key must not choke)
+                           '_q', 'q_', 'q--q', '-', '__q__', 'Q q', '\xb5m']
 ADV_POOL: t.List[t.Any] = ADV_ATOMS + [
     {1: 1}, {None: None}, {(1, 2): 3}, {True: 1, 1.0: 2}, [[[[[]]]]], {'x': [1]}, {'x': {'y': 1}}, {'t': [1], 'c': {}},
     {'t': {'a': 1}, 'c': {}}, {'x': None}, {'x': 1.5}, {'x': [1]}, {'x': {'a': 1}}, {'x': True}, {'v1': 1, 'v2': 2}, {'t': 'v1'},
@@ -58,7 +60,7 @@ def mutate_adv(v, _top=True):
                         yield dict(items[:i] + [(nk, x)] + items[i + 1:])
                 except TypeError:
                     pass
-        for nk in ADV_KEYS[:5]:
+        for nk in ADV_KEYS[:5] + ADV_KEYS[11:]:
             yield dict(items + [(nk, 0)])
             yield dict(items + [(nk, [[]])])      # an odd key whose value is refused as well
     else:
@@ -102,7 +104,7 @@ def values_adv(ast, tier):
             near = [near[int(i * step)] for i in range(cap)]
         # every mapping at every depth replaced by the least a Mapping can be (no .copy() / .pop() / .get override ...)
         bare = [all_bare(m) for m in (mem + near[:40]) if has_map(m)]
-        big = [b for m in mem[:2] for b in values.inflate(m, 40)]
+        big = [b for m in mem[:2] for b in values.inflate(m, 70)]
         out += near + bare + big + values.POOL + ADV_POOL
         r = values.dedupe(out)
         if len(_VC) > 3000:
